@@ -126,7 +126,18 @@ def execute_case(machine, case, journal=None):
     except (MemoryError, RecursionError) as e:
         return {"status": "harness-error", "step": env.step,
                 "detail": "".join(traceback.format_exception(e))}
-    except Exception as e:   # an exception escaping the machine is a harness bug
+    except Exception as e:
+        # An exception escaping a machine is a harness bug -- unless it was raised *inside* the system under test by a call
+        # the machine had no reason to guard (every such call succeeds on the unchanged tree): then the code under test
+        # refused or crashed on a supported operation, which is reported as a violation of the property being exercised.
+        tb = traceback.extract_tb(e.__traceback__)
+        inner = tb[-1].filename if tb else ""
+        if "cherab/" in inner.replace("\\", "/") and "/verif/" not in inner:
+            opk = case["ops"][env.step]["op"] if 0 <= env.step < len(ops) else ("start" if env.step < 0 else "finish")
+            return {"status": "violation", "class": ["unexpected-exception", opk], "step": env.step,
+                    "detail": "%s raised inside the library during a supported operation: %s" % (
+                        type(e).__name__, "".join(traceback.format_exception(e))[-1500:]),
+                    "digest": env.digest.hexdigest(), "stats": env.stats.to_json()}
         return {"status": "harness-error", "step": env.step,
                 "detail": "".join(traceback.format_exception(e))}
     return {
